@@ -25,3 +25,4 @@ CHECKS["X11"] = checks_extra.check_refine
 CHECKS["X03"] = checks_extra.check_zwindow
 CHECKS["X04"] = checks_extra.check_findall
 CHECKS["X05"] = checks_extra.check_klatt_open
+CHECKS["X06"] = checks_extra.check_pointobj
